@@ -486,7 +486,7 @@ def run(tier="quick", seed=0):
         return make_case(L, parents, specs, mvs, tags=tags, reuse=rng.random() < 0.5, history=hist, style=rng.randrange(8))
 
     mode_list = [(es, el) for es in (False, True) for el in (False, True)]
-    for n, per, frac in ((3, 12 if thorough else 3, 1.0), (4, 4 if thorough else 1, 1.0 if thorough else 0.2)):
+    for n, per, frac in ((3, 30 if thorough else 3, 1.0), (4, 10 if thorough else 1, 1.0 if thorough else 0.2)):
         for parents in structures(n):
             for modes in itertools.product(mode_list, repeat=n):
                 if frac < 1.0 and rng.random() >= frac:
